@@ -33,6 +33,9 @@ import (
 
 const (
 	t3 = 60 * time.Millisecond
+	// deterministic scenarios use a longer T3: their expected outcomes are asserted, so a reply must
+	// not lose a race against the timer on a loaded machine
+	scenT3 = 150 * time.Millisecond
 	t6 = 400 * time.Millisecond
 )
 
@@ -55,6 +58,9 @@ func main() {
 	}
 	for i := 0; i < 4; i++ {
 		stalled(c, i%2 == 1)
+	}
+	for i := 0; i < 8; i++ {
+		ctrlFirst(c, rand.New(rand.NewSource(c.Rng.Int63())), []int{1, 4}[(i/2)%2], i%2 == 1, i >= 4)
 	}
 	// known-finding class: control responses reusing live system bytes
 	nk := n / 8
@@ -126,12 +132,13 @@ type scen struct {
 	e    *sc.Env
 	p    *sc.Peer
 	acts []string
+	bad  string // outcome assertion that failed, if any
 }
 
 func (s *scen) act(f string, a ...any) { s.acts = append(s.acts, fmt.Sprintf(f, a...)) }
 
 func setup(active bool, nh int) (*scen, error) {
-	e, err := sc.NewEnv(active, nh, t3, t6)
+	e, err := sc.NewEnv(active, nh, scenT3, t6)
 	if err != nil {
 		return nil, err
 	}
@@ -238,9 +245,14 @@ func scenarioList() []scenario {
 		s.act("P %s ; D", rf.M())
 		return err
 	}
-	fin := func(s *scen, done chan string, choice string) error {
-		_, err := waitRes(done)
+	// fin waits for the send to return and asserts its outcome class: the scripted peer behaviour of
+	// each scenario admits exactly one (implementation-level oracle, no model involved)
+	fin := func(s *scen, done chan string, choice string, want string) error {
+		res, err := waitRes(done)
 		s.act("G 1 %s ; G 1 go", choice)
+		if err == nil && strings.Fields(res)[0] != want {
+			s.bad = fmt.Sprintf("the reply-expected send returned %q, the scripted peer behaviour admits only %q", strings.Fields(res)[0], want)
+		}
 		return err
 	}
 	mk := func(name string, active bool, f func(s *scen, r *rand.Rand) error) scenario {
@@ -258,7 +270,7 @@ func scenarioList() []scenario {
 				if err := reply(s, prim, prim.B2&0x7F, prim.B3+1); err != nil {
 					return err
 				}
-				return fin(s, done, "chan")
+				return fin(s, done, "chan", "okf")
 			}),
 			mk("abort-F0", active, func(s *scen, r *rand.Rand) error {
 				prim, done, err := s.send(1, bg, true)
@@ -268,7 +280,7 @@ func scenarioList() []scenario {
 				if err := reply(s, prim, prim.B2&0x7F, 0); err != nil {
 					return err
 				}
-				return fin(s, done, "chan")
+				return fin(s, done, "chan", "okf")
 			}),
 			mk("reject", active, func(s *scen, r *rand.Rand) error {
 				prim, done, err := s.send(1, bg, true)
@@ -280,27 +292,27 @@ func scenarioList() []scenario {
 					return err
 				}
 				s.act("P %s ; D", rj.M())
-				return fin(s, done, "chan")
+				return fin(s, done, "chan", "rej")
 			}),
 			mk("t3", active, func(s *scen, r *rand.Rand) error {
 				_, done, err := s.send(1, bg, true)
 				if err != nil {
 					return err
 				}
-				s.act("K %d", t3.Milliseconds())
-				return fin(s, done, "timer")
+				s.act("K %d", scenT3.Milliseconds())
+				return fin(s, done, "timer", "t3")
 			}),
 			mk("stalled-write-t3", active, func(s *scen, r *rand.Rand) error {
 				// the peer leaves the primary unread for 0.6 x T3 (the library's write blocks on the
 				// pipe), then reads it and never replies: T3 counts from the write, not from the call
 				s.p.Hold()
-				go func() { time.Sleep(t3 * 6 / 10); s.p.Release() }()
+				go func() { time.Sleep(scenT3 * 6 / 10); s.p.Release() }()
 				_, done, err := s.send(1, bg, true)
 				if err != nil {
 					return err
 				}
-				s.act("K %d", t3.Milliseconds())
-				return fin(s, done, "timer")
+				s.act("K %d", scenT3.Milliseconds())
+				return fin(s, done, "timer", "t3")
 			}),
 			mk("ctx", active, func(s *scen, r *rand.Rand) error {
 				ctx, cancel := context.WithCancel(bg)
@@ -311,7 +323,7 @@ func scenarioList() []scenario {
 				}
 				cancel()
 				s.act("Z 1")
-				return fin(s, done, "ctx")
+				return fin(s, done, "ctx", "ctx")
 			}),
 			mk("primary-collision", active, func(s *scen, r *rand.Rand) error {
 				prim, done, err := s.send(1, bg, true)
@@ -342,7 +354,7 @@ func scenarioList() []scenario {
 				if err := reply(s, prim, prim.B2&0x7F, prim.B3+1); err != nil {
 					return err
 				}
-				return fin(s, done, "chan")
+				return fin(s, done, "chan", "okf")
 			}),
 			mk("unsolicited-then-reply", active, func(s *scen, r *rand.Rand) error {
 				prim, done, err := s.send(1, bg, true)
@@ -360,7 +372,7 @@ func scenarioList() []scenario {
 				if err := reply(s, prim, prim.B2&0x7F, prim.B3+1); err != nil {
 					return err
 				}
-				return fin(s, done, "chan")
+				return fin(s, done, "chan", "okf")
 			}),
 			mk("late-duplicate", active, func(s *scen, r *rand.Rand) error {
 				prim, done, err := s.send(1, bg, true)
@@ -370,7 +382,7 @@ func scenarioList() []scenario {
 				if err := reply(s, prim, prim.B2&0x7F, prim.B3+1); err != nil {
 					return err
 				}
-				if err := fin(s, done, "chan"); err != nil {
+				if err := fin(s, done, "chan", "okf"); err != nil {
 					return err
 				}
 				// the transaction is over: a second reply is unsolicited and goes to the handler
@@ -387,7 +399,7 @@ func scenarioList() []scenario {
 				s.e.Down()
 				s.p.Close()
 				s.act("F ; X ; T")
-				return fin(s, done, "gen")
+				return fin(s, done, "gen", "closed")
 			}),
 			mk("fire-and-forget", active, func(s *scen, r *rand.Rand) error {
 				_, done, err := s.send(1, bg, false)
@@ -443,6 +455,7 @@ func scenarioList() []scenario {
 				case res := <-done:
 					done <- res
 					s.act("G 1 chan ; G 1 go")
+					s.bad = fmt.Sprintf("the reply-expected send returned %q on a control response reusing its system bytes, before the peer's reply", strings.Fields(res)[0])
 					return nil
 				case <-time.After(20 * time.Millisecond):
 				}
@@ -450,7 +463,7 @@ func scenarioList() []scenario {
 				if err := reply(s, prim, prim.B2&0x7F, prim.B3+1); err != nil {
 					return err
 				}
-				return fin(s, done, "chan")
+				return fin(s, done, "chan", "okf")
 			}))
 		}
 	}
@@ -485,10 +498,13 @@ func scenarios(c *vh.Ctx) {
 				}
 				continue
 			}
-			line := fmt.Sprintf("S %d %d %d %s | %s", t3.Milliseconds(), t6.Milliseconds(), 1, strings.Join(s.acts, " ; "), log)
+			line := fmt.Sprintf("S %d %d %d %s | %s", scenT3.Milliseconds(), t6.Milliseconds(), 1, strings.Join(s.acts, " ; "), log)
 			c.Case(line, sn.name+"/"+role, true)
 			c.Count("scenario/" + sn.name)
-			oracle(c, s.e.Rec.Entries(), sn.name+"/"+role, log)
+			if s.bad != "" {
+				c.Fail("C06: scenario "+sn.name+"/"+role+": "+s.bad, line)
+			}
+			oracle(c, s.e.Rec, scenT3, sn.name+"/"+role, log)
 		}
 	}
 }
@@ -695,7 +711,132 @@ func history(c *vh.Ctx, r *rand.Rand, nSenders, per int, active bool, collide bo
 	for _, k := range ks {
 		c.Sum.Histogram["peer/"+k] += behav[k]
 	}
-	oracle(c, es, fmt.Sprintf("history senders=%d %s collide=%v", nSenders, role, collide), log)
+	oracle(c, e.Rec, t3, fmt.Sprintf("history senders=%d %s collide=%v", nSenders, role, collide), log)
+}
+
+// ctrlFirst: single and concurrent senders against a peer that answers every W-bit primary FIRST with
+// colliding control responses (each kind: Linktest.rsp, Select.rsp, Deselect.rsp carrying the
+// primary's system bytes), THEN with the real reply — 20 ms later ("spaced": the waiter has long
+// taken the control response) or at once ("back-to-back": the control response may still sit in the
+// waiter's one-slot channel) — and sometimes with a duplicate reply after it. T3 is long (1 s) and
+// the peer answers at once, so the only admissible outcome of every send is its own reply; a duplicate may be discarded or delivered as unsolicited,
+// never returned to another sender (general oracle).
+func ctrlFirst(c *vh.Ctx, r *rand.Rand, nSenders int, active bool, backToBack bool) {
+	const cT3 = 1000 * time.Millisecond
+	e, err := sc.NewEnv(active, 1, cT3, t6)
+	if err != nil {
+		c.Fail("rig: NewEnv", err.Error())
+		return
+	}
+	if err := e.Open(false); err != nil {
+		c.Fail("rig: Open", err.Error())
+		return
+	}
+	p, err := e.Connect(3 * time.Second)
+	if err != nil {
+		c.Fail("rig: Connect", err.Error())
+		_ = e.Close()
+		return
+	}
+	defer p.Close()
+	defer e.Close()
+	if err := e.Select(p, 0xE0000001); err != nil {
+		c.Fail("rig: Select", err.Error())
+		return
+	}
+	role := map[bool]string{false: "passive", true: "active"}[active]
+	variant := "spaced"
+	if backToBack {
+		variant = "back-to-back"
+	}
+	what := fmt.Sprintf("ctrl-before-reply %s senders=%d %s", variant, nSenders, role)
+	const per = 3
+	finish := make(chan struct{})
+	peerDone := make(chan bool, 1)
+	pr := rand.New(rand.NewSource(r.Int63()))
+	go func() {
+		k := 0
+		for {
+			select {
+			case f, ok := <-p.In:
+				if !ok {
+					peerDone <- false
+					return
+				}
+				if !sc.IsData(f) || f.B2&0x80 == 0 {
+					continue
+				}
+				kinds := []byte{6, 2, 4}
+				cnt := 1 + pr.Intn(3)
+				for j := 0; j < cnt; j++ {
+					st := kinds[(k+j)%3]
+					_, _ = p.SendF(sc.Frame{Sid: 0xFFFF, ST: st, B3: byte(pr.Intn(2)), Sys: f.Sys})
+				}
+				k++
+				if !backToBack {
+					time.Sleep(20 * time.Millisecond)
+				}
+				_, _, _ = p.SendData(f.Sid, f.B2&0x7F, f.B3+1, f.Sys) // the real reply
+				if pr.Intn(3) == 0 {
+					_, _, _ = p.SendData(f.Sid, f.B2&0x7F, f.B3+1, f.Sys) // duplicate after the real reply
+				}
+			case <-finish:
+				peerDone <- p.Barrier(nil)
+				return
+			}
+		}
+	}()
+	var wg sync.WaitGroup
+	results := make(chan [2]string, nSenders*per)
+	for sidx := 0; sidx < nSenders; sidx++ {
+		wg.Add(1)
+		go func(sidx int) {
+			defer wg.Done()
+			for k := 0; k < per; k++ {
+				id := int64(sidx*per + k + 1)
+				ctx, cancel := context.WithTimeout(context.Background(), 5*time.Second)
+				res, _ := e.SyncSend(ctx, id, byte(1+sidx%20), byte(1+2*k), true)
+				cancel()
+				results <- [2]string{fmt.Sprint(id), res}
+			}
+		}(sidx)
+	}
+	doneAll := make(chan struct{})
+	go func() { wg.Wait(); close(doneAll) }()
+	select {
+	case <-doneAll:
+	case <-time.After(30 * time.Second):
+		c.Fail("rig: callers did not finish", what+" | "+sc.Render(e.Rec.Entries()))
+	}
+	close(finish)
+	okB := false
+	select {
+	case okB = <-peerDone:
+	case <-time.After(10 * time.Second):
+	}
+	log := sc.Render(e.Rec.Entries())
+	close(results)
+	lost := 0
+	for rr := range results {
+		if strings.Fields(rr[1])[0] != "okf" {
+			lost++
+			if backToBack && lost > 2 {
+				continue // the class is reported; keep room in the failure list
+			}
+			c.Fail(fmt.Sprintf("C06: reply-expected send returned %q although the peer sent its reply behind control responses reusing the system bytes (T3 = %d ms)", strings.Fields(rr[1])[0], cT3.Milliseconds()),
+				fmt.Sprintf("%s | call %s | %s", what, rr[0], log))
+		}
+	}
+	if !okB {
+		c.Fail("rig: barrier did not complete", what+" | "+log)
+		return
+	}
+	line := fmt.Sprintf("H %d %d %d | %s", cT3.Milliseconds(), t6.Milliseconds(), 1, log)
+	c.Case(line, what, true)
+	c.Count("history/ctrl-before-reply/" + variant)
+	if !(backToBack && lost > 0) { // the lost replies of the known class are already reported above
+		oracle(c, e.Rec, cT3, what, log)
+	}
 }
 
 // stalled: two concurrent reply-expected senders against a peer that leaves the first primary
@@ -783,7 +924,8 @@ func stalled(c *vh.Ctx, active bool) {
 
 var knownReported int
 
-func oracle(c *vh.Ctx, es []sc.Entry, what, log string) {
+func oracle(c *vh.Ctx, rec *sc.Rec, T3 time.Duration, what, log string) {
+	es := rec.Entries()
 	type callInfo struct {
 		sys   int64
 		w     bool
@@ -893,8 +1035,35 @@ func oracle(c *vh.Ctx, es []sc.Entry, what, log string) {
 					c.Fail("C06: reject error with a reason the peer never sent for this transaction", fmt.Sprintf("%s | call %d | %s", what, e.ID, log))
 				}
 			case "t3":
-				if e.N < t3.Milliseconds() {
+				if e.N < T3.Milliseconds() {
 					c.Fail(fmt.Sprintf("C06: T3 timeout after %d ms < T3", e.N), fmt.Sprintf("%s | call %d | %s", what, e.ID, log))
+				}
+				// no T3 when the peer replied well inside T3: a secondary with this transaction's system
+				// bytes that the library had taken off the wire at least `margin` before the timer could
+				// fire (the timer is armed after the write, the write ends after payloadAt) must have
+				// been routed to this sender (registered from before the write until it returns)
+				if pa, ok := rec.PayloadAt.Load(e.ID); ok {
+					margin := T3 / 2
+					if margin < 100*time.Millisecond {
+						margin = 100 * time.Millisecond
+					}
+					for _, n := range sentOrder {
+						pf := sentBy[n]
+						if pf.PT != 0 || pf.ST != 0 || pf.B2 >= 128 || pf.B3%2 != 0 || int64(pf.Sys) != ci.sys {
+							continue
+						}
+						if _, used := usedBy[n]; used {
+							continue
+						}
+						if wa, ok := rec.WroteAt.Load(n); ok {
+							d := wa.(time.Time).Sub(pa.(time.Time))
+							if d >= 0 && d+margin <= T3 {
+								c.Fail(fmt.Sprintf("C06: T3 timeout although the peer's reply (frame %d, same system bytes) had reached the library %d ms after the primary was written (T3 = %d ms)", n, d.Milliseconds(), T3.Milliseconds()),
+									fmt.Sprintf("%s | call %d sys %d | %s", what, e.ID, ci.sys, log))
+								break
+							}
+						}
+					}
 				}
 			case "closed", "ctx", "notsel", "notopen", "werr":
 			default:
